@@ -298,6 +298,32 @@ fn scripted(v: Variant) -> Vec<Hist> {
     for s in bad {
         out.push(Hist { setup: s, steps: vec![st(T0 + 1, PUPPET, mint(1, "alice")), st(T0 + 2, "creator", upd(|u| u.description = Some("k".into())))] });
     }
+    // creator / explicit_content / start_trading_time given vs omitted at instantiation: what
+    // was given is what is stored, and the given creator is the one who can update and freeze
+    for cr in ["creator", "creator2"] {
+        for ex in [None, Some(true), Some(false)] {
+            for stt in [None, Some(T0 + 1000)] {
+                let mut s = base.clone();
+                s.info.creator = cr.to_string();
+                s.info.explicit_content = ex;
+                s.info.start_trading_time = stt;
+                let other = if cr == "creator" { "creator2" } else { "creator" };
+                out.push(Hist {
+                    setup: s,
+                    steps: vec![
+                        st(T0 + 1, other, upd(|u| u.description = Some("by the other".into()))),
+                        st(T0 + 2, other, Op::FreezeInfo),
+                        st(T0 + 3, cr, upd(|u| u.description = Some("by the creator".into()))),
+                        st(T0 + 4, PUPPET, Op::StartTrading(Some(T0 + 2000))),
+                        st(T0 + 5, cr, Op::FreezeInfo),
+                        st(T0 + 6, cr, upd(|u| u.explicit_content = Some(true))),
+                        st(T0 + 7, other, Op::FreezeTokenMd),
+                        st(T0 + 8, cr, Op::FreezeTokenMd),
+                    ],
+                });
+            }
+        }
+    }
     // S9: migration to the sg721-updatable code by the wasm admin (= creator), placed between
     // freeze / enable / update operations; the cw2 record says which deployment it is
     {
@@ -572,6 +598,17 @@ pub fn monitor(r: &Runner) -> Option<(String, String)> {
     if init.num_tokens != 0 || !init.tokens.is_empty() {
         return Some(("count-mismatch".into(), "a fresh collection reports tokens".into()));
     }
+    // LEDGER RULE: who the creator is, as the instantiate message and the accepted
+    // update_collection_info messages (creator: Some) say - never a value read back
+    let mut creator: String = r.setup.info.creator.clone();
+    // the collection info as the instantiate message gave it must be what the queries report
+    {
+        let g = &r.setup.info;
+        let given = (g.creator.clone(), g.description.clone(), g.image.clone(), g.external_link.clone(), g.explicit_content, g.royalty.clone());
+        if init.info.creator_fields() != given || init.info.start_trading_time != g.start_trading_time {
+            return Some(("instantiate-info-differs".into(), format!("instantiated with {:?} / start_trading_time {:?}, CollectionInfo reports {:?} / {:?}", given, g.start_trading_time, init.info.creator_fields(), init.info.start_trading_time)));
+        }
+    }
     let mut info_frozen: Option<(usize, InfoObs)> = None;
     let mut md_frozen: Option<usize> = None;
     // the code it runs: a successful migration makes any collection an updatable one
@@ -632,7 +669,7 @@ pub fn monitor(r: &Runner) -> Option<(String, String)> {
         }
         // creator-editable fields: only the creator's update changes them; never after a freeze
         if a.info.creator_fields() != b.info.creator_fields() {
-            let by_creator = rec.ok && matches!(rec.step.op, Op::UpdateInfo(_)) && *sender == b.info.creator;
+            let by_creator = rec.ok && matches!(rec.step.op, Op::UpdateInfo(_)) && *sender == creator;
             if !by_creator {
                 return Some(("creator-field-changed-by-other".into(), format!("step {}: {:?} from {} changed collection info", i, rec.step.op, sender)));
             }
@@ -643,8 +680,8 @@ pub fn monitor(r: &Runner) -> Option<(String, String)> {
             }
         }
         if rec.ok && matches!(rec.step.op, Op::FreezeInfo) {
-            if *sender != b.info.creator {
-                return Some(("freeze-by-non-creator".into(), format!("step {}: freeze by {} accepted, creator is {}", i, sender, b.info.creator)));
+            if *sender != creator {
+                return Some(("freeze-by-non-creator".into(), format!("step {}: freeze by {} accepted, creator is {}", i, sender, creator)));
             }
             if info_frozen.is_none() {
                 info_frozen = Some((i, a.info.clone()));
@@ -653,8 +690,8 @@ pub fn monitor(r: &Runner) -> Option<(String, String)> {
         // token metadata
         if rec.ok {
             if let Op::UpdateTokenMd { id, .. } = &rec.step.op {
-                if !updatable || *sender != b.info.creator || b.token(&token_name(*id)).is_none() {
-                    return Some(("metadata-update-unauthorized".into(), format!("step {}: update_token_metadata({}) from {} accepted (creator {}, token exists: {})", i, token_name(*id), sender, b.info.creator, b.token(&token_name(*id)).is_some())));
+                if !updatable || *sender != creator || b.token(&token_name(*id)).is_none() {
+                    return Some(("metadata-update-unauthorized".into(), format!("step {}: update_token_metadata({}) from {} accepted (creator {}, token exists: {})", i, token_name(*id), sender, creator, b.token(&token_name(*id)).is_some())));
                 }
             }
         }
@@ -664,7 +701,7 @@ pub fn monitor(r: &Runner) -> Option<(String, String)> {
                     if let Some(at) = md_frozen {
                         return Some(("frozen-metadata-changed".into(), format!("step {}: token {} uri {:?} -> {:?} after the metadata freeze of step {}", i, t.id, bt.uri, t.uri, at)));
                     }
-                    let legit = rec.ok && updatable && *sender == b.info.creator && matches!(&rec.step.op, Op::UpdateTokenMd { id, .. } if token_name(*id) == t.id);
+                    let legit = rec.ok && updatable && *sender == creator && matches!(&rec.step.op, Op::UpdateTokenMd { id, .. } if token_name(*id) == t.id);
                     if !legit {
                         return Some(("uri-changed-unauthorized".into(), format!("step {}: token {} uri changed by {:?} from {}", i, t.id, rec.step.op, sender)));
                     }
@@ -680,6 +717,11 @@ pub fn monitor(r: &Runner) -> Option<(String, String)> {
         }
         if rec.ok && matches!(rec.step.op, Op::Migrate) {
             updatable = true;
+        }
+        if let (true, Op::UpdateInfo(u)) = (rec.ok, &rec.step.op) {
+            if let Some(c) = &u.creator {
+                creator = c.clone();
+            }
         }
     }
     None
